@@ -406,7 +406,7 @@ def reader_rows_table(ctx, rule, aspects, entry="Reader.rows"):
     try:
         return decide(ctx, rule, table, qualname, cell, min_cells=40)
     except AnalysisError as error:
-        if "on order symbol" not in str(error):
+        if "on order symbol" not in str(error) and "range over abstract bounds" not in str(error):
             raise
         # the code computes with the header count or the limit: decide on region representatives instead
         numeric[0] = "regions"
@@ -715,9 +715,13 @@ def write_rows_agreement_table(ctx, rule):
     return _decide(ctx, rule, "DelimitedRowWriter.write_rows agrees with write_row", "cutplace.rowio.AbstractRowWriter.write_rows", cell, min_cells=16)
 
 
-def writer_run(model, ch, format_name="delimited"):
+def writer_run(model, ch, format_name="delimited", field_class=None, row_counts=None):
     run = _writer_world(model, ch, format_name)
     interp = run["interp"]
+    if field_class is not None:
+        # the recording fields keep their recording validated(); only the type the writer may look at changes
+        for field in run["cid"].attrs["_field_formats"]:
+            field.cls = model.cls(field_class)
     widths = []
     line_delimiter = ch.choose("line delimiter", LINE_DELIMITERS if format_name == "fixed" else LINE_DELIMITERS[:4])
     run["cid"].attrs["_data_format"].attrs["_line_delimiter"] = line_delimiter
@@ -750,6 +754,12 @@ def writer_run(model, ch, format_name="delimited"):
                 padded.padded_from = left
                 padded.pad = right
                 return padded
+            if isinstance(op, _ast.Add) and isinstance(right, FixedCell) and isinstance(left, str) and right.padded_from is None:
+                padded = FixedCell("pad+" + right.name, right.column, right.short)
+                padded.padded_from = right
+                padded.pad = left
+                padded.pad_left = True
+                return padded
             return NotImplemented
 
         interp.externals["text_len"] = text_len
@@ -762,7 +772,7 @@ def writer_run(model, ch, format_name="delimited"):
             return original(interp_, args, kwargs)
 
         interp.externals["csv.writer"] = csv_writer
-    n_rows = ch.choose("rows to write", [0, 1, 2, 3] if format_name != "fixed" else [0, 1, 2])
+    n_rows = ch.choose("rows to write", row_counts or ([0, 1, 2, 3] if format_name != "fixed" else [0, 1, 2]))
     rows = []
     for index in range(n_rows):
         if format_name == "fixed":
@@ -810,7 +820,8 @@ def _expect_fixed_emit(cursor, row, line_delimiter, index):
         raise Mismatch("row %d emitted as %d items, expected %d" % (index, len(parts), len(row)))
     for cell, part in zip(row, parts):
         if cell.short:
-            if not (isinstance(part, FixedCell) and part.padded_from is cell and part.pad == " " * ([3, 2][cell.column] - 1)):
+            if not (isinstance(part, FixedCell) and part.padded_from is cell and part.pad == " " * ([3, 2][cell.column] - 1)
+                    and not getattr(part, "pad_left", False)):
                 raise Mismatch("short cell %s of row %d was not right-padded with blanks to its width" % (cell.name, index))
         elif part is not cell:
             raise Mismatch("cell %s of row %d (already as wide as its field) was not emitted unchanged" % (cell.name, index))
@@ -931,6 +942,21 @@ def fixed_writer_padding_table(ctx, rule):
 
     ctx.res.minimum(rule, 1)
     return decide_kinds(ctx, rule, "Writer(fixed): validated values are the written values", WRITER + ".write_row", cell, min_cells=20)
+
+
+def fixed_writer_padding_side_table(ctx, rule, field_class_names):
+    """Whatever the type of a field, a short value is written with blanks on its right (that is what the fixed reader
+    strips and what 'ab' == 'ab ' means): one row, every short / full combination, every field class."""
+    def cell(ch):
+        field_class = ch.choose("field class", list(field_class_names))
+        run = writer_run(ctx.model, ch, "fixed", field_class=field_class, row_counts=[1])
+        shorts = "".join("s" if cell_.short else "=" for row in run["rows"] for cell_ in row)
+        calls = ",".join("%s:%s" % (event[1], event[-1]) for event in run["interp"].events if event[0] in ("validate_row", "check_at_end"))
+        key = "%s delimiter=%r cells=%s calls[%s]" % (field_class.rsplit(".", 1)[-1], run["line_delimiter"], shorts, calls)
+        return (key, writer_oracle(run, {"delimiter"}), "conforms")
+
+    ctx.res.minimum(rule, 1)
+    return decide(ctx, rule, "Writer(fixed): padding side per field type", WRITER + ".write_row", cell, min_cells=60)
 
 
 def writer_table(ctx, rule, aspects, format_name="delimited"):
